@@ -88,11 +88,14 @@ def pyNat? (s : Text) : Option Nat :=
   else if s.all isDigit then some (s.foldl (fun n c => 10 * n + (c.toNat - 48)) 0)
   else none
 
-/-- Python `float(s)` succeeds on `digits[.digits]` with at least one digit (the shape `%f`
-and every prefix of it has) -/
+/-- the value column is accepted: Python `float(s)` succeeds on `digits[.digits]` with at least one
+digit (the shape `%f` and every prefix of it has), and the two boolean texts are accepted -/
 def pyFloatOk (s : Text) : Bool :=
   let ds := s.filter (fun c => c ≠ '.')
-  ds ≠ [] && ds.all isDigit && (s.filter (fun c => c = '.')).length ≤ 1
+  (ds ≠ [] && ds.all isDigit && (s.filter (fun c => c = '.')).length ≤ 1)
+    -- boolean measurements (ValidationLog's Success) are written as True / False and read back
+    -- as booleans (measurement.py `_value_from_str`)
+    || s = "True".toList || s = "False".toList
 
 def totalName : Text := "total".toList
 
